@@ -166,6 +166,29 @@ Proof.
   apply andb_true_iff in T. destruct T as [T _]. apply andb_true_iff in T. apply T.
 Qed.
 
+(* every datastore read call site of the engines and commands forwards the request's preference *)
+Lemma reads_forward_consistency_gen : forallb read_ok c10_reads = true.
+Proof. vm_compute. reflexivity. Qed.
+
+(* the table is not empty where it matters: the read sites of both engines (the recursive ones
+   included), of ListObjects (reverse expansion, pipeline) and of ListUsers are in it *)
+Lemma reads_not_vacuous :
+  forallb (fun fm => has_read (fst fm) (snd fm))
+    [("Resolver.resolveRecursiveTTU", "Read"); ("Resolver.resolveRecursiveUserset", "ReadUsersetTuples");
+     ("Resolver.ttu", "Read"); ("Resolver.specificType", "ReadUserTuple");
+     ("Resolver.specificTypeAndRelation", "ReadUsersetTuples"); ("Resolver.specificTypeWildcard", "ReadUsersetTuples");
+     ("Recursive.buildTupleMapperForID", "Read"); ("Recursive.buildTupleMapperForID", "ReadUsersetTuples");
+     ("bottomUp.specificType", "ReadStartingWithUser");
+     ("LocalChecker.checkTTU", "Read"); ("LocalChecker.checkDirectUserTuple", "ReadUserTuple");
+     ("LocalChecker.checkPublicAssignable", "ReadUsersetTuples");
+     ("buildRecursiveMapper", "Read"); ("buildRecursiveMapper", "ReadUsersetTuples");
+     ("IteratorReadUsersetTuples", "ReadUsersetTuples"); ("IteratorReadStartingFromUser", "ReadStartingWithUser");
+     ("ValidatingStore.createIterator", "ReadStartingWithUser"); ("ListObjectsQuery.Execute", "WithStoreConsistency");
+     ("ReverseExpandQuery.readTuplesAndExecute", "ReadStartingWithUser");
+     ("ReverseExpandQuery.buildFilteredIterator", "ReadStartingWithUser");
+     ("listUsersQuery.expandDirect", "Read"); ("listUsersQuery.expandTTU", "Read")]%string = true.
+Proof. vm_compute. reflexivity. Qed.
+
 (* ================================================================================================ *)
 (* 2. the machine                                                                                    *)
 
